@@ -378,7 +378,7 @@ func (r *Rig) rawPeer() (upstream.Upstream, error) {
 	}
 }
 
-// `life <carrier> 1 blockS rstall` (NOT generated, NOT modelled - kept for replaying an observation, see notes/C14.md):
+// `life <carrier> 1 blockS rstall` (a defect repaired in /repo, see known_findings):
 // the other direction.  The raw peer floods a logical connection whose target has stopped reading (`noread`); after
 // 4 MiB the server's multiplexer stops reading the carrier (receive budget exhausted); then the peer hangs up.  The
 // server never reads again, so it never sees the end of the carrier, and the multiplexer's keep-alive declines to close a
@@ -413,7 +413,17 @@ func stalledTargetCut(carrier string) (string, string) {
 	}
 	_ = p.Close()
 	t0 := time.Now()
-	gs, ss := waitClean(base, func() []string { return nil }, nil, true, 70*time.Second)
+	// the target's own end of the stalled connection belongs to the harness, not to the server
+	own := func() []string {
+		var o []string
+		for _, tc := range rig.Targets["sink"].Conns() {
+			if k := sockKey(tc.conn.LocalAddr(), tc.conn.RemoteAddr()); k != "" {
+				o = append(o, k)
+			}
+		}
+		return o
+	}
+	gs, ss := waitClean(base, own, nil, true, 70*time.Second)
 	if len(gs) == 0 && len(ss) == 0 {
 		return "held=false", ""
 	}
